@@ -242,8 +242,47 @@ pub fn run(ctx: &Ctx) -> i32 {
     });
     let mut acc = acc;
     acc.merge(large);
+    // deeply nested documents: each format's depth limit is enforced by different code for
+    // slices (MessagePack: a size pre-pass) and readers, so the verdict at every depth must agree
+    let mut deep_cases = vec![];
+    for (f, limit) in crate::c18::LIMITS {
+        for shape in [crate::c18::Shape::Arrays, crate::c18::Shape::Maps, crate::c18::Shape::Alternating, crate::c18::Shape::Random(seed.wrapping_add(7))] {
+            let mut depths = vec![limit / 2 - 1, limit / 2, limit / 2 + 1, limit - 2, limit - 1, limit, limit + 1];
+            if f == Fmt::Msgpack {
+                depths.extend([100, 255, 256, 341, 342, 600, 1000]);
+            }
+            for d in depths {
+                deep_cases.push((f, shape, d));
+            }
+        }
+    }
+    let deep = crate::par::run(deep_cases.len(), 1, |i, acc| {
+        let (f, shape, d) = deep_cases[i];
+        let mut inputs = vec![crate::c18::nested(f, shape, d)];
+        if f == Fmt::Msgpack {
+            for st in crate::c18::MSGPACK_STYLES {
+                inputs.push(crate::c18::nested_msgpack_styled(shape, d, st));
+            }
+        }
+        for bytes in inputs {
+            if bytes.is_empty() {
+                continue;
+            }
+            acc.count("class_deeply_nested");
+            acc.distinct(&bytes);
+            for to in [ALL[i % 4], ALL[(i + 1) % 4]] {
+                for from in [Some(f), None] {
+                    let s = run_slice(&bytes, from, to);
+                    for sc in [Sched::All, Sched::Fixed(7), Sched::Fixed(4096)] {
+                        compare(&bytes, from, to, &sc, "deeply_nested", &s, acc);
+                    }
+                }
+            }
+        }
+    });
+    acc.merge(deep);
     let rule = format!(
-        "{} mixed corpus inputs (valid single/multi-document streams of every format, mutants, splices, seeds, random bytes/tokens) x relevant source selections x 4 targets x schedules [all, one, fixed(n), 2 random, boundary cuts], plus EVERY token sequence of length 1..={} over each format's alphabet x [own format, detect] x 2 targets x [all, one], plus {} large valid streams (50-1500 documents, up to 2 MiB) under 7 schedules incl. fixed(8191/8192/8193); each evaluation is one (slice run, reader run) pair; distinct non-trivial = distinct non-empty input byte strings",
+        "{} mixed corpus inputs (valid single/multi-document streams of every format, mutants, splices, seeds, random bytes/tokens) x relevant source selections x 4 targets x schedules [all, one, fixed(n), 2 random, boundary cuts], plus EVERY token sequence of length 1..={} over each format's alphabet x [own format, detect] x 2 targets x [all, one], plus {} large valid streams (50-1500 documents, up to 2 MiB) under 7 schedules incl. fixed(8191/8192/8193), plus documents nested to half of, just below, at and just beyond each format's depth limit (arrays, maps, mixtures; MessagePack also with 16/32-bit headers and wide collections, and at 100..1000); each evaluation is one (slice run, reader run) pair; distinct non-trivial = distinct non-empty input byte strings",
         n_mixed, max_tok, n_large
     );
     let mut extra = serde_json::Map::new();
